@@ -359,6 +359,10 @@ class RuntimeState(utils.NiceRepr):
                 # Determine if this impacts the local (inline) or global state.
                 if directive.inline:
                     state = self._inline_state
+                    if action in {'set.add', 'set.remove'} and key not in state:
+                        # inline set operations act on a copy of the
+                        # persistent set so they only last for one update
+                        state[key] = set(self._global_state[key])
                 else:
                     state = self._global_state
 
